@@ -142,6 +142,35 @@ theorem c14_info_sound_active (ct : Nat) (bulks : List (List Nat)) (m qf qt : Na
   simp only [List.nil_append] at hcov
   exact isIntersecting_nodist hcov (by rw [foldl_appendBulk_dist]; rfl) hm h1 h2
 
+/-- **Info soundness for retried bulks.**  Any history of bulks through the index worker of one fraction - bulks
+retried in part or in whole, IDs repeated inside a bulk, documents in any time order, new documents beyond the
+current `From`/`To` on either side: at every moment (every prefix of the history is a history) the info of the
+active fraction reports every range that holds a stored document as intersecting, so `Info()` never lags behind what
+the fraction's data provider can return ... -/
+theorem c14_info_sound_retried (ct : Nat) (hist : List (List (Nat × Nat))) (id : Nat × Nat) (qf qt : Nat)
+    (hid : id ∈ (hist.foldl ingestBulk (newInfo ct, [])).2) (h1 : qf ≤ id.1) (h2 : id.1 ≤ qt) :
+    FracInfo.isIntersecting (hist.foldl ingestBulk (newInfo ct, [])).1 qf qt = true := by
+  have hcov := covers_ingest_foldl (st := (newInfo ct, [])) (covers_new ct) hist
+  exact isIntersecting_nodist hcov (by rw [(ingest_dist _ hist).1]; rfl) (List.mem_map_of_mem hid) h1 h2
+
+/-- ... and so does the info written when that fraction is sealed (stale borders would be copied into it) -/
+theorem c14_info_sound_retried_sealed (ct : Nat) (hist : List (List (Nat × Nat))) (id : Nat × Nat) (qf qt : Nat)
+    (hid : id ∈ (hist.foldl ingestBulk (newInfo ct, [])).2) (h1 : qf ≤ id.1) (h2 : id.1 ≤ qt)
+    (hqt : qt < 18446744073709551616) :
+    FracInfo.isIntersecting
+      (buildDistribution consts (hist.foldl ingestBulk (newInfo ct, [])).1
+        (FracInfo.systemMID :: (hist.foldl ingestBulk (newInfo ct, [])).2.map Prod.fst)) qf qt = true := by
+  have hcov := covers_ingest_foldl (st := (newInfo ct, [])) (covers_new ct) hist
+  exact isIntersecting_build c14_x_good_consts hcov (by rw [(ingest_dist _ hist).1]; rfl)
+    (fun x hx => List.mem_cons_of_mem _ hx) (List.mem_map_of_mem hid) h1 h2 hqt
+
+/-- non-vacuity, the shape that needs two independent comparisons: bulk 1 = {A, B}; the retry carries the newest
+document N first, then the duplicate A, then an older document O: survivors `[N, O]`, `To` must become N -/
+example :
+    let st := [[(2000, 1), (2100, 2)], [(9000, 3), (2000, 1), (1000, 4)]].foldl ingestBulk (newInfo 100000, [])
+    st.1.ifrom = 1000 ∧ st.1.ito = 9000 ∧ st.1.docsTotal = 4 ∧ st.2 = [(2000, 1), (2100, 2), (9000, 3), (1000, 4)] ∧
+    FracInfo.isIntersecting st.1 9000 9000 = true := by decide
+
 /-- **Info soundness survives persistence**: the info restored from the index info block / `.frac-cache`
 (distribution through its JSON image) equals the sealed one, for creation times before the year 292 million. -/
 theorem c14_info_persist (ct : Nat) (hct : ct < 9223372036854775808) (bulks : List (List Nat)) :
@@ -516,5 +545,27 @@ theorem c14_x_ensured_boundaries :
     searchDocsLimitUpdate = ["origLimit := params.Limit", "fracsChunkSize := s.cfg.FractionsPerIteration",
       "fracsChunkSize = len(remainingFracs)", "for len(remainingFracs) > 0 && (scanAll || params.Limit > 0)",
       "params.Limit = origLimit - calcEnsuredIDsCount(total.IDs, remainingFracs, params.Order)"] := by decide
+
+/-- the collector recomputes `MinMID` and `MaxMID` with two INDEPENDENT comparisons, in `Filter` (from
+`MaxUint64 / 0`, over the survivors of a retried bulk) exactly as in `AppendMeta`; the index worker filters when
+`SetMultiple` dropped something and hands the collector's stats to `UpdateStats` -/
+theorem c14_x_collector_borders :
+    collectorFilterBorders = ["c.MaxMID = 0", "c.MinMID = math.MaxUint64", "c.DocsCounter = uint32(len(appended))",
+      "if id.MID < c.MinMID { c.MinMID = id.MID }", "if id.MID > c.MaxMID { c.MaxMID = id.MID }"] ∧
+    collectorAppendMetaBorders = ["if m.ID.MID < c.MinMID { c.MinMID = m.ID.MID }",
+      "if m.ID.MID > c.MaxMID { c.MaxMID = m.ID.MID }"] ∧
+    indexerFilterAndStats = ["active.DocsPositions.SetMultiple(collector.IDs, collector.Positions)",
+      "if len(appendedIDs) != len(collector.IDs)", "collector.Filter(appendedIDs)", "active.AppendIDs(collector.IDs)",
+      "active.UpdateStats(collector.MinMID, collector.MaxMID, collector.DocsCounter, collector.SizeCounter)"] := by decide
+
+/-- `proxyFrac.Info / IsIntersecting / Contains` answer from the CURRENT fraction (the live active info until the
+sealed one is published); the struct holds no copy of an info.  With `c14_info_sound_retried` (valid after every
+prefix of the indexing history): whatever `Info()` answers at any moment covers every document indexed so far - also
+while the fraction is readonly and being sealed. -/
+theorem c14_x_proxy_info_live :
+    proxyInfo = ["return f.cur().Info()"] ∧ proxyIsIntersecting = ["return f.cur().IsIntersecting(from, to)"] ∧
+    proxyContains = ["return f.cur().Contains(mid)"] ∧
+    proxyCur = ["f.useMu.RLock()", "defer f.useMu.RUnlock()", "if f.sealed == nil { return f.active }", "return f.sealed"] ∧
+    proxyInfoFields = [] := by decide
 
 end SV.Props.C14
